@@ -201,6 +201,8 @@ type InstanceOpts struct {
 	NoWAL      bool
 	WithHelium bool
 	Cfg        *coretypes.Config
+	// WrapStore lets a check put a recording/altering wrapper between Calcium and the real store
+	WrapStore func(store.Store) store.Store
 }
 
 func (i *Instance) step(ctx context.Context, s Step) error {
@@ -271,6 +273,9 @@ func (b *Backend) NewInstance(opts InstanceOpts) (*Instance, error) {
 	} else {
 		inst.Merc = etcdv3.NewWithKV(cfg, inst.KV, newPool())
 		inst.Store = inst.Merc
+	}
+	if opts.WrapStore != nil {
+		inst.Store = opts.WrapStore(inst.Store)
 	}
 	inst.Cfg = cfg
 	inst.Plugin = cpumem.NewPluginWithStore(cfg, inst.KV)
